@@ -21,7 +21,8 @@ EXPLANATION = (
     "cleans up (C04.R3)."
     ' Also: every call of the validator reaches the signature comparison (no memo); the file-level validator compares full Arrow schemas.'
     " R1 also evaluates the file-level format guard under the scenarios file_format = FileFormat.PARQUET and 'parquet' (the footer comparison must be reached) and rejects a signature returned as a dict (order-insensitive)."
-    ' (R6) bounds written by an accepted append are lossless (C13.R4); (R7) create_table / load_table keep no handle registry and return the Table constructed in the call.')
+    ' (R6) bounds written by an accepted append are lossless (C13.R4); (R7) create_table / load_table keep no handle registry and return the Table constructed in the call.'
+    ' (R8) pre-built files must exist at append and at commit time; (R9) the record validator raises for unknown fields and for missing / None required fields.')
 NOT_DECIDED = ("value-level round trip through Arrow/Parquet for every type and value class; 'mis-filter' in general; what "
                "pyarrow accepts for a declared type")
 
@@ -47,6 +48,7 @@ def check(ctx: Ctx) -> None:
     ctx.shared(c13_r4, "C13.R4", "C11.R6", "bounds written by an accepted append are lossless")
     handles_fresh(ctx)
     appended_files_must_exist(ctx)
+    strict_validation_rejects(ctx)
 
 
 def missing_file_raises(ctx: Ctx, f: FunctionInfo, rid: str, what: str) -> int:
@@ -100,6 +102,70 @@ def appended_files_must_exist(ctx: Ctx, rid: str = "C11.R8") -> None:
         ok = any(v.id in dom[m.id] and isinstance(v.ast, ast.Call) and v.ast.args and pn in names_in(v.ast.args[0]) for v in vcalls)
         ctx.ob(rid, cf, "commit-time validation dominates the manifest of appended files", m, ok,
                "validate_data_files(append_files) runs on every attempt before the manifest is written")
+
+
+def strict_validation_rejects(ctx: Ctx, rid: str = "C11.R9") -> None:
+    ctx.rule(rid, "the record validator rejects what would be silently lost: a record with a field outside the schema raises, and "
+             "a required field that is missing or None raises (pyarrow's from_pylist enforces neither)", 2)
+    f = ctx.fn("data_operations.DataFileManager.validate_records_strict")
+    g = ctx.cfg(f)
+    raises = [n.id for n in g.nodes if n.kind == "raise"]
+    stops = [g.exit] + [x.id for x in g.nodes if x.kind in ("loop", "loop_head", "return")]
+
+    def must_raise(b: Node, outcome: bool) -> bool:
+        t = edge_target(g, b, "true" if outcome else "false")
+        return t is not None and find_path(g, t, stops, avoid=raises, labels=NORMAL | {"back"}) is None
+
+    # (a) "the required field is missing or None" -> raise.  Scenario: `<record>.get(<name>)` IS None (`<name> not in <record>` holds).
+    def is_get_none(x: ast.AST) -> Optional[bool]:
+        if isinstance(x, ast.Compare) and len(x.ops) == 1 and isinstance(x.comparators[0], ast.Constant) and x.comparators[0].value is None \
+                and isinstance(x.left, ast.Call) and isinstance(x.left.func, ast.Attribute) and x.left.func.attr == "get":
+            if isinstance(x.ops[0], ast.Is):
+                return True
+            if isinstance(x.ops[0], ast.IsNot):
+                return False
+        if isinstance(x, ast.Compare) and len(x.ops) == 1 and isinstance(x.ops[0], (ast.NotIn, ast.In)) and isinstance(x.comparators[0], ast.Name):
+            return isinstance(x.ops[0], ast.NotIn)
+        return None
+
+    def collected(name: str, at: int) -> bool:
+        """`name` holds the required fields found missing: next(<gen filtered by `.get(..) is None`>, None) / [.. if ..] / {..}"""
+        for d in ctx.rd(f).reaching(at, name):
+            dn = g.nodes[d]
+            if d == g.entry or not isinstance(dn.ast, ast.Assign):
+                return False
+            v = dn.ast.value
+            comp = v.args[0] if isinstance(v, ast.Call) and dotted(v.func) == "next" and v.args else v
+            if not isinstance(comp, (ast.GeneratorExp, ast.ListComp, ast.SetComp)) or \
+                    not any(is_get_none(c) is True for gen in comp.generators for c in gen.ifs):
+                return False
+        return True
+
+    req_ok = []
+    for b in [x for x in g.nodes if x.kind == "branch" and x.id in g.reachable() and x.ast is not None]:
+        v = eval3(b.ast, is_get_none)
+        if v is not None and any(is_get_none(y) is not None and not (isinstance(y, ast.Compare) and isinstance(y.ops[0], (ast.In, ast.NotIn))
+                                                                     and "allowed" in norm_text(y.comparators[0])) for y in ast.walk(b.ast)):
+            req_ok.append(must_raise(b, v))
+            continue
+        # a collected set / first element of missing names, tested for presence
+        t = b.ast
+        nm, present = None, None
+        if isinstance(t, ast.Name):
+            nm, present = t.id, True
+        elif isinstance(t, ast.Compare) and len(t.ops) == 1 and isinstance(t.left, ast.Name) and isinstance(t.comparators[0], ast.Constant) \
+                and t.comparators[0].value is None and isinstance(t.ops[0], (ast.Is, ast.IsNot)):
+            nm, present = t.left.id, isinstance(t.ops[0], ast.IsNot)
+        if nm is not None and collected(nm, b.id):
+            req_ok.append(must_raise(b, bool(present)))
+    ctx.ob(rid, f, "a required field that is missing / None raises", None, bool(req_ok) and all(req_ok),
+           "under the scenario `record.get(<required name>) is None` every path raises ValueError")
+    # (b) the set of unknown keys, when non-empty, raises
+    unk = [b for b in g.nodes if b.kind == "branch" and b.id in g.reachable() and isinstance(b.ast, ast.Name)
+           and any(isinstance(d.ast, ast.Assign) and isinstance(d.ast.value, ast.BinOp) and isinstance(d.ast.value.op, ast.Sub)
+                   for d in [g.nodes[x] for x in ctx.rd(f).reaching(b.id, b.ast.id) if x != g.entry])]
+    ctx.ob(rid, f, "fields outside the schema raise", unk[0] if unk else None, bool(unk) and all(must_raise(b, True) for b in unk),
+           "unknown = keys - allowed; non-empty -> ValueError (nothing is silently dropped by the schema projection)")
 
 
 def handles_fresh(ctx: Ctx, rid: str = "C11.R7") -> None:
